@@ -36,6 +36,8 @@ func C02(r *core.Run) {
 	provNoReorder(r)
 	provTailAppend(r)
 	provNames(r)
+	provRefs(r)
+	importNames(r)
 	// every declared kind is handled
 	rules.TypeSwitchCovers(r, convRel, "buildField", schemaPB, "isField_Type", map[string]string{
 		"Field_Array": "arrays are unwrapped by buildProperty, which calls buildField on the item schema (no arrays of arrays in proto3)",
@@ -201,4 +203,113 @@ func httpPathRewrite(r *core.Run) {
 		o.Fail("split=%q prefix=%q join=%q snake=%v rewrite=%q does not implement :name → {snake_name}", split, prefix, join, snake, rewrite)
 	}
 	_ = fmt.Sprintf
+}
+
+// importNames (R-CONST/importnames): which names an import brings into scope.
+// README "Imports": a package is referred to by its name without the version,
+// or — when the import gives an alias — by the alias instead. Every store into
+// the import table is classified by its key; a key derived by splitting the
+// package path may only be stored on paths where the alias is known to be
+// empty, otherwise an aliased import also claims (and, the table being
+// last-writer-wins, may steal) another package's short name.
+func importNames(r *core.Run) {
+	r.Rule("R-CONST/importnames", "in j5Imports every store into the import table whose key is derived from the package path (not the alias, not the full path) is guarded on all control-flow paths by `imp.Alias == \"\"`: an aliased import registers its alias, not the default short name")
+	fd, pk := r.P.FuncDecl(convRel, "j5Imports")
+	if fd == nil {
+		r.Fatal("anchor: j5convert.j5Imports not found")
+		return
+	}
+	info := pk.TypesInfo
+	isAliasSel := func(e ast.Expr) bool {
+		s, ok := core.Unparen(e).(*ast.SelectorExpr)
+		return ok && s.Sel.Name == "Alias"
+	}
+	// full-path keys: identifiers defined from imp.Path or PackageFromFilename(imp.Path)
+	full := map[types.Object]bool{}
+	ast.Inspect(fd.Body, func(n ast.Node) bool {
+		as, ok := n.(*ast.AssignStmt)
+		if !ok || len(as.Lhs) != 1 || len(as.Rhs) != 1 {
+			return true
+		}
+		id, ok := as.Lhs[0].(*ast.Ident)
+		if !ok {
+			return true
+		}
+		rhs := core.Unparen(as.Rhs[0])
+		isPath := false
+		if s, ok := rhs.(*ast.SelectorExpr); ok && s.Sel.Name == "Path" {
+			isPath = true
+		}
+		if c, ok := rhs.(*ast.CallExpr); ok && strings.HasSuffix(core.CalleeName(info, c), "PackageFromFilename") {
+			isPath = true
+		}
+		if isPath {
+			if o := info.Defs[id]; o != nil {
+				full[o] = true
+			} else if o := info.Uses[id]; o != nil {
+				full[o] = true
+			}
+		}
+		return true
+	})
+	excl := func(cond ast.Expr, branch bool) bool {
+		b, ok := core.Unparen(cond).(*ast.BinaryExpr)
+		if !ok {
+			return false
+		}
+		var other ast.Expr
+		switch {
+		case isAliasSel(b.X):
+			other = b.Y
+		case isAliasSel(b.Y):
+			other = b.X
+		default:
+			return false
+		}
+		if s, ok := core.ConstString(info, other); !ok || s != "" {
+			return false
+		}
+		// alias == "" on the true branch, alias != "" on the false branch
+		return (b.Op.String() == "==" && branch) || (b.Op.String() == "!=" && !branch)
+	}
+	n := 0
+	ast.Inspect(fd.Body, func(nd ast.Node) bool {
+		as, ok := nd.(*ast.AssignStmt)
+		if !ok {
+			return true
+		}
+		for _, l := range as.Lhs {
+			ix, ok := l.(*ast.IndexExpr)
+			if !ok {
+				continue
+			}
+			if _, isMap := info.TypeOf(ix.X).Underlying().(*types.Map); !isMap {
+				continue
+			}
+			key := core.Unparen(ix.Index)
+			kind := "derived"
+			if isAliasSel(key) {
+				kind = "alias"
+			} else if id, ok := key.(*ast.Ident); ok && full[info.Uses[id]] {
+				kind = "full"
+			}
+			n++
+			o := r.Add("R-CONST/importnames", fmt.Sprintf("j5Imports | %s[%s] (%s key)", core.ExprStr(ix.X), core.ExprStr(ix.Index), kind), as.Pos(), "import table entry under a "+kind+" key")
+			switch kind {
+			case "alias":
+				o.Auto("the alias the import declares")
+			case "full":
+				o.Auto("the full package path: unique per package")
+			default:
+				if rules.ReachableAvoiding(fd.Body, as, excl) {
+					o.Fail("the derived short name is also registered for imports that declare an alias: `import a.bar.v1` followed by `import b.bar.v1:other` makes `bar.X` resolve to b.bar.v1")
+				} else {
+					o.Auto("stored only on paths where the alias is empty")
+				}
+			}
+		}
+		return true
+	})
+	r.Floor("R-CONST/importnames", 3, "stores into the import table")
+	_ = n
 }
